@@ -146,7 +146,7 @@ def src_c06(case: Dict[str, Any]) -> Tuple[dict, dict, Any]:
 def src_c01(case: Dict[str, Any]) -> Tuple[dict, dict, Any]:
     cfg = dict(case["cfg"])
     cfg["keep_alive_timeout"] = T_BIG
-    programs = {"*": c01.app_program(case["app"])}
+    programs = c01.programs_for(case)
     h1 = case["opening"].startswith("h1")
 
     async def sc(env: Any) -> Any:
@@ -157,7 +157,7 @@ def src_c01(case: Dict[str, Any]) -> Tuple[dict, dict, Any]:
 
 def src_c10(case: Dict[str, Any]) -> Tuple[dict, dict, Any]:
     cfg = {"keep_alive_timeout": T_BIG, "websocket_max_message_size": case["limit"]}
-    programs = {"/ws": c10.app_program(case)}
+    programs = c10.programs_for(case)
 
     async def sc(env: Any) -> Any:
         out = await c10.scenario(env, case)
@@ -168,11 +168,7 @@ def src_c10(case: Dict[str, Any]) -> Tuple[dict, dict, Any]:
 
 def src_c03(case: Dict[str, Any]) -> Tuple[dict, dict, Any]:
     cfg = {"keep_alive_timeout": c03.T_KEEPALIVE}
-    proto = case["proto"]
-    if proto.startswith("ws"):
-        programs = {"/a0": c03.ws_program(case["apps"][0])}
-    else:
-        programs = {f"/a{i}": c03.http_program(a, i) for i, a in enumerate(case["apps"])}
+    programs = c03.programs_for(case)
 
     async def sc(env: Any) -> Any:
         out = await c03.scenario(env, case)
@@ -238,6 +234,13 @@ def case_strategy(draw: Any, source: str) -> Dict[str, Any]:
             a["chunk"] = min(a["chunk"], 2000)
         if inner["event"] == "write_fail":
             inner["event"] = "reset"  # where a write fails depends on the transport's buffering
+        # ties inside one instant (an event racing the application's wake-up) are decided by the
+        # scheduler, legitimately differently on the two workers: C03 judges them per worker
+        if inner["event"] == "request_at_expiry":
+            inner["event"] = "keepalive_expiry"
+        inner["race"] = None
+        if inner["when"] == inner["apps"][0]["delay"] and inner["when"] > 0:
+            inner["when"] = inner["when"] + 0.05
     elif source == "slow":
         inner = {"queue": draw(st.sampled_from([1, 2, 3, 10])),
                  "frames": draw(st.integers(1, 30)), "size": draw(st.sampled_from([1, 10, 500])),
